@@ -8,15 +8,16 @@ import (
 const c18Rule = "(a fifth more cases with a PATTERN field in all three indexes: list assignments, keywords spanning the join) the same documents and assignments given to the k-groups, compact and roaring index (all fields configured with the same parser: common, number or string-hash), values drawn from the C09 representation zoo (all integer widths, numeric strings, json.Number, floats incl. fractional and negative, unicode strings, typed slices, heterogeneous lists, also shapes with no written specification such as lists mixing numbers and words), include/exclude, repeated fields, empty conjunctions; the three answers are compared pairwise and each index with its model. Non-trivial = all three accept and some query returns a non-empty proper subset; distinct = distinct input"
 
 type triIn struct {
-	Tri     bool     `json:"tri"`
-	Parser  string   `json:"parser"`
-	NF      int      `json:"nf"`
-	Docs    []eDoc   `json:"docs"`
-	Qs      []eQuery `json:"qs"`
-	Batch   int      `json:"batch,omitempty"`
-	Rebuild int      `json:"rebuild,omitempty"`
-	Pre     bool     `json:"pre,omitempty"` // the posting-list builders have produced an earlier generation (the same documents under other ids) and were Reset
-	Ac      bool     `json:"ac,omitempty"`  // field 1 is a pattern field in all three indexes (documents from acDocsQueries)
+	Tri       bool     `json:"tri"`
+	Parser    string   `json:"parser"`
+	NF        int      `json:"nf"`
+	Docs      []eDoc   `json:"docs"`
+	Qs        []eQuery `json:"qs"`
+	Batch     int      `json:"batch,omitempty"`
+	Rebuild   int      `json:"rebuild,omitempty"`
+	RrRebuild int      `json:"rr_rebuild,omitempty"` // the roaring builder only: BuildIndexer() also after that many documents
+	Pre       bool     `json:"pre,omitempty"`        // the posting-list builders have produced an earlier generation (the same documents under other ids) and were Reset
+	Ac        bool     `json:"ac,omitempty"`         // field 1 is a pattern field in all three indexes (documents from acDocsQueries)
 }
 
 func zooValue(r *Rand, parser string) TV {
@@ -74,7 +75,11 @@ func init() {
 			// pattern fields: the three implementations must join lists, match keywords and combine with ordinary fields alike
 			for i := 0; i < n/5; i++ {
 				docs, qs := acDocsQueries(r, i%3 == 0)
-				add(triIn{Tri: true, NF: 2, Ac: true, Docs: docs, Qs: qs, Pre: r.Bool()})
+				tAc := triIn{Tri: true, NF: 2, Ac: true, Docs: docs, Qs: qs, Pre: r.Bool()}
+				if len(docs) > 1 && r.Bool() && !tAc.Pre { // add, build, add, build on the roaring builder (the posting-list builders: default fields only)
+					tAc.RrRebuild = 1 + r.Intn(len(docs)-1)
+				}
+				add(tAc)
 			}
 			{ // keywords that span, contain or border the join of a list assignment
 				kw := func(inc bool, ss ...string) eExpr {
@@ -94,7 +99,11 @@ func init() {
 					}
 					qs = append(qs, eQuery{A: []eAssign{{F: 1, V: tvSlice("[]string", l...)}}}, eQuery{A: []eAssign{{F: 1, V: tvList(l...)}, {F: 0, V: tvInt("int", 1)}}})
 				}
-				add(triIn{Tri: true, NF: 2, Ac: true, Docs: docs, Qs: qs, Pre: r.Bool()})
+				tAc := triIn{Tri: true, NF: 2, Ac: true, Docs: docs, Qs: qs, Pre: r.Bool()}
+				if len(docs) > 1 && r.Bool() && !tAc.Pre { // add, build, add, build on the roaring builder (the posting-list builders: default fields only)
+					tAc.RrRebuild = 1 + r.Intn(len(docs)-1)
+				}
+				add(tAc)
 			}
 			for i := 0; i < n; i++ {
 				p := []string{"", "number", "strhash"}[i%3]
@@ -171,7 +180,10 @@ func init() {
 			}
 			k, e1 := mk("kgroups")
 			c, e2 := mk("compact")
-			rc := rCase{Fields: fields, Docs: t.Docs}
+			rc := rCase{Fields: fields, Docs: t.Docs, Rebuild: t.Rebuild}
+			if t.RrRebuild > 0 {
+				rc.Rebuild = t.RrRebuild
+			}
 			for _, q := range t.Qs {
 				rc.Ops = append(rc.Ops, rOp{S: 0, Op: "reset"}, rOp{S: 0, Op: "retrieve", A: q.A})
 			}
